@@ -19,6 +19,8 @@ import (
 	"path/filepath"
 	"strconv"
 	"strings"
+	"sync"
+	"sync/atomic"
 	"time"
 
 	"github.com/hslam/rpc"
@@ -124,8 +126,11 @@ func (s *Svc) J(req *mJ, res *mJ) error {
 	res.T, res.D = int(t), hex.EncodeToString(o)
 	return err
 }
-func (s *Svc) Code(req *mCode, res *mCode) (err error) { res.T, res.D, err = s.do(req.T, req.D); return }
-func (s *Svc) PB(req *mPB, res *mPB) (err error)       { res.T, res.D, err = s.do(req.T, req.D); return }
+func (s *Svc) Code(req *mCode, res *mCode) (err error) {
+	res.T, res.D, err = s.do(req.T, req.D)
+	return
+}
+func (s *Svc) PB(req *mPB, res *mPB) (err error) { res.T, res.D, err = s.do(req.T, req.D); return }
 
 func payload(tag byte, n int) []byte {
 	b := make([]byte, n)
@@ -158,7 +163,11 @@ func (c cfg) String() string {
 	return strings.Join([]string{c.network, b(c.tls), c.enc, c.codec, b(c.poll), strconv.Itoa(c.buf)}, "|")
 }
 
-var want = []string{"ok", "E:unlucky thirteen", "E:can't find service Svc.Nope", "pong", "ok", "ok"}
+var want = []string{"ok", "E:unlucky thirteen", "E:can't find service Svc.Nope", "pong", "ok", "ok", "ok", "ok", "ok", "ok", "ok", "ok"}
+
+// header fields (arguments, reply) of 125..131 bytes: the one-byte / two-byte length boundary of the pb and code
+// header formats (JSON body: 16+2*56 = 128 bytes with a three-digit tag)
+var boundarySizes = []int{56, 124, 125, 126, 127, 128}
 
 func runOne(c cfg, port int, dir string) (transcript []string, note string) {
 	addr := fmt.Sprintf("127.0.0.1:%d", port)
@@ -212,7 +221,7 @@ func runOne(c cfg, port int, dir string) (transcript []string, note string) {
 			if err != nil {
 				return "E:" + err.Error()
 			}
-		case <-time.After(30 * time.Second):
+		case <-time.After(10 * time.Second):
 			return "TIMEOUT"
 		}
 		rt, rd := f.get(rep)
@@ -240,11 +249,25 @@ func runOne(c cfg, port int, dir string) (transcript []string, note string) {
 		} else {
 			transcript = append(transcript, "pong")
 		}
-	case <-time.After(30 * time.Second):
+	case <-time.After(10 * time.Second):
 		transcript = append(transcript, "ping:TIMEOUT")
 	}
 	transcript = append(transcript, call(f.method, 4, big), call(f.method, 5, 30))
-	for t, n := range map[uint64]int{1: 1, 13: 1, 4: 1, 5: 1} {
+	// the buffer size option again, now on a connection whose reader is parked, then sizes around the
+	// length-prefix boundary of the header formats
+	sb := make(chan struct{})
+	go func() { conn.SetBufferSize(c.buf); close(sb) }()
+	select {
+	case <-sb:
+	case <-time.After(10 * time.Second):
+		note += "SetBufferSize on an idle connection did not return; "
+	}
+	execWant := map[uint64]int{1: 1, 13: 1, 4: 1, 5: 1}
+	for i, d := range boundarySizes {
+		transcript = append(transcript, call(f.method, uint64(110+i), d))
+		execWant[uint64(110+i)] = 1
+	}
+	for t, n := range execWant {
 		if svc.execs[t] != n {
 			note += fmt.Sprintf("request %d executed %d times; ", t, svc.execs[t])
 		}
@@ -269,6 +292,7 @@ type result struct {
 	Note       string   `json:"note,omitempty"`
 	OK         bool     `json:"ok"`
 	Attempts   int      `json:"attempts"`
+	Earlier    []string `json:"earlier_attempts,omitempty"`
 }
 
 func main() {
@@ -293,6 +317,7 @@ func main() {
 		quick := fs.Bool("quick", false, "")
 		seed := fs.Int("seed", 0, "")
 		dir := fs.String("dir", os.TempDir(), "")
+		jobs := fs.Int("jobs", 8, "subprocesses at a time")
 		fs.Parse(os.Args[2:])
 		var cfgs []cfg
 		nets := []string{"tcp", "unix", "http", "ws", "inproc"}
@@ -316,34 +341,68 @@ func main() {
 			}
 		}
 		base := 23000 + (*seed%50)*200
-		var results []result
+		results := make([]result, len(cfgs))
 		bad := 0
+		skipped := 0
+		var nbad int32
+		// one subprocess per configuration (and per attempt), several at a time: every subprocess has
+		// its own port, UNIX socket file and inproc name
+		par := *jobs
+		if par < 1 {
+			par = 1
+		}
+		sem := make(chan struct{}, par)
+		var wg sync.WaitGroup
 		for i, c := range cfgs {
-			var r result
-			for attempt := 1; attempt <= 3; attempt++ {
-				port := base + (i*3+attempt*7)%6000
-				ctx, cancel := context.WithTimeout(context.Background(), 100*time.Second)
-				cmd := exec.CommandContext(ctx, os.Args[0], "one", "-cfg", c.String(), "-port", strconv.Itoa(port), "-dir", *dir)
-				b, err := cmd.Output()
-				cancel()
-				r = result{Cfg: c.String()}
-				if err == nil {
-					json.Unmarshal(b, &r)
-				} else {
-					r.Note = "subprocess: " + err.Error()
-				}
-				r.Attempts = attempt
-				if r.OK {
-					break
-				}
+			i, c := i, c
+			if atomic.LoadInt32(&nbad) >= 5 {
+				// enough configurations have failed three attempts: the rest would only repeat the
+				// finding (a tree on which calls hang costs up to 100 s per attempt)
+				results[i] = result{Cfg: c.String(), OK: true, Note: "not run: five configurations had already failed"}
+				skipped++
+				continue
 			}
+			wg.Add(1)
+			sem <- struct{}{}
+			go func() {
+				defer func() { <-sem; wg.Done() }()
+				defer func() {
+					if !results[i].OK {
+						atomic.AddInt32(&nbad, 1)
+					}
+				}()
+				var r result
+				var earlier []string
+				for attempt := 1; attempt <= 3; attempt++ {
+					port := base + (i*3+attempt*7)%6000
+					ctx, cancel := context.WithTimeout(context.Background(), 60*time.Second)
+					cmd := exec.CommandContext(ctx, os.Args[0], "one", "-cfg", c.String(), "-port", strconv.Itoa(port), "-dir", *dir)
+					b, err := cmd.Output()
+					cancel()
+					r = result{Cfg: c.String()}
+					if err == nil {
+						json.Unmarshal(b, &r)
+					} else {
+						r.Note = "subprocess: " + err.Error()
+					}
+					r.Attempts = attempt
+					r.Earlier = earlier
+					if r.OK {
+						break
+					}
+					earlier = append(earlier, fmt.Sprintf("attempt %d (port %d): transcript %v note %q", attempt, port, r.Transcript, r.Note))
+				}
+				results[i] = r
+			}()
+		}
+		wg.Wait()
+		for _, r := range results {
 			if !r.OK {
 				bad++
 				fmt.Printf("real-network configuration %s: transcript %v note %q (3 attempts)\n", r.Cfg, r.Transcript, r.Note)
 			}
-			results = append(results, r)
 		}
-		summary := map[string]interface{}{"configurations": len(cfgs), "failed": bad, "expected_transcript": want, "results": results}
+		summary := map[string]interface{}{"configurations": len(cfgs), "failed": bad, "not_run_after_five_failures": skipped, "expected_transcript": want, "results": results}
 		b, _ := json.MarshalIndent(summary, "", " ")
 		if *out != "" {
 			os.WriteFile(*out, b, 0644)
